@@ -11,6 +11,7 @@ import (
 	"fmt"
 	"os"
 	"reflect"
+	"sort"
 	"strings"
 	"sync"
 	"sync/atomic"
@@ -103,12 +104,41 @@ func ord(desc bool) string {
 }
 
 // fill writes every fraction of `fracs` into e; all but the last are sealed, the last one if sealLast.
-func fill(e *env.Env, fracs [][]ID, sealLast bool) error {
+// hist is the ingestion history of each fraction - MultiFrac.tla's fraction is a SET of documents, whatever the bulks
+// that brought them and whatever was asked in between: 0 = one bulk; 1 / 2 / 3 = one document per bulk in rising /
+// falling ID order / as listed, with a search of the growing fraction (both orders) after every bulk, which makes
+// the active fraction merge its queued postings into the sorted lists before the next bulk arrives.
+func fill(e *env.Env, fracs [][]ID, sealLast bool, hist int) error {
+	all := &cases.AST{Op: "all"}
 	for i, f := range fracs {
-		if err := e.Bulk(docs(f)); err != nil {
-			return err
+		if hist == 0 {
+			if err := e.Bulk(docs(f)); err != nil {
+				return err
+			}
+			e.WaitIdle()
+		} else {
+			g := append([]ID(nil), f...)
+			if hist < 3 {
+				sort.Slice(g, func(a, b int) bool {
+					less := g[a].Mid < g[b].Mid || (g[a].Mid == g[b].Mid && rid(g[a].Rid) < rid(g[b].Rid))
+					return less == (hist == 1)
+				})
+			}
+			for k := range g {
+				if err := e.Bulk(docs(g[k : k+1])); err != nil {
+					return err
+				}
+				e.WaitIdle()
+				for _, o := range []string{"desc", "asc"} {
+					ast, _ := all.Build()
+					sp := e.SearchParams(env.Params{From: 0, To: 1 << 40, Limit: 2, Order: o})
+					sp.AST = ast
+					if _, err := env.SearchFracs(e.FM().GetAllFracs(), 1, sp); err != nil {
+						return err
+					}
+				}
+			}
 		}
-		e.WaitIdle()
 		if i < len(fracs)-1 || sealLast {
 			e.Seal()
 		}
@@ -123,7 +153,7 @@ func runStoreGroup(gi int, g []*Case) {
 		return
 	}
 	defer e.Close()
-	if err := fill(e, g[0].Fracs, gi%2 == 1); err != nil {
+	if err := fill(e, g[0].Fracs, gi%2 == 1, (gi/2)%4); err != nil {
 		emit(map[string]any{"infra": "bulk: " + err.Error()})
 		return
 	}
@@ -144,7 +174,7 @@ func runStoreGroup(gi int, g []*Case) {
 		if err != nil {
 			emit(map[string]any{"n": c.N, "what": "error: " + err.Error(), "case": json.RawMessage(c.raw)})
 		} else if !same(r.IDs, pairs(c.Exp.IDs)) {
-			emit(map[string]any{"n": c.N, "what": "ids", "got": r.IDs, "exp": pairs(c.Exp.IDs), "lastSealed": gi%2 == 1, "case": json.RawMessage(c.raw)})
+			emit(map[string]any{"n": c.N, "what": "ids", "got": r.IDs, "exp": pairs(c.Exp.IDs), "lastSealed": gi%2 == 1, "ingest": (gi / 2) % 4, "case": json.RawMessage(c.raw)})
 		} else if c.Q.WithTotal && r.Total != c.Exp.Total {
 			emit(map[string]any{"n": c.N, "what": "total", "got": r.Total, "exp": c.Exp.Total, "case": json.RawMessage(c.raw)})
 		}
@@ -169,7 +199,7 @@ func runProxy(c *Case) {
 			return nil
 		}
 		all = append(all, e)
-		if err := fill(e, fracs, sealLast); err != nil {
+		if err := fill(e, fracs, sealLast, (c.N/2)%4); err != nil {
 			emit(map[string]any{"infra": "bulk: " + err.Error()})
 			return nil
 		}
